@@ -93,7 +93,8 @@ func (m *MessageBuffer) Send(msg []byte) error {
 		return ErrClosed
 	}
 
-	l := len(msg)
+	// Each message is framed (tag + length prefix) inside the batch message
+	l := batchEntrySize(msg)
 	if l > m.maxSize {
 		return ErrMessageTooLarge
 	}
